@@ -22,7 +22,7 @@ def run(tier, seed, replay=None):
                            workers=12, timeout=2400)
     wit = vlib.witnesses("NetLocal", "NetLocal_quick.cfg",
                          ["W_NoStale", "W_NoSeen", "W_NoAdopt", "W_NoShutdown", "W_NoReject", "W_NoDupFlood"], wd, workers=4)
-    segs, steps = (60, 12) if tier == "quick" else (600, 16)
+    segs, steps = (45, 12) if tier == "quick" else (600, 16)
     out = netlocal.run_netlocal(wd, seed, segs, steps)
     for viol in out["harness"]["violations"]:
         if viol["sig"].startswith("C06:"):
